@@ -320,15 +320,10 @@ result<bool> url_pattern<regex_provider>::test(
       return false;
     }
 
-    std::string_view search_view = *apply_result->search;
-    if (search_view.starts_with("?")) {
-      search_view.remove_prefix(1);
-    }
-
     return test_components(*apply_result->protocol, *apply_result->username,
                            *apply_result->password, *apply_result->hostname,
                            *apply_result->port, *apply_result->pathname,
-                           search_view, *apply_result->hash);
+                           *apply_result->search, *apply_result->hash);
   }
 
   // URL string input path
